@@ -99,7 +99,7 @@ func builderTypes(w *World, ifaces ...string) []types.Type {
 			continue
 		}
 		for _, T := range w.Implementers(it) {
-			k := types.TypeString(T, nil)
+			k := tstr(T, nil)
 			if !seen[k] {
 				seen[k] = true
 				out = append(out, T)
